@@ -1533,6 +1533,10 @@ static inline void IR_UMUL_OV64(uint64_t a, uint64_t b, uint64_t* r, _Bool* o) {
 static inline void IR_UADD_OV64(uint64_t a, uint64_t b, uint64_t* r, _Bool* o) { *r = a + b; *o = *r < a; }
 static inline void IR_USUB_OV64(uint64_t a, uint64_t b, uint64_t* r, _Bool* o) { *r = a - b; *o = a < b; }
 static inline uint64_t IR_USUB_SAT64(uint64_t a, uint64_t b) { return a > b ? a - b : 0; }
+static inline uint32_t IR_ABS32(uint32_t x) { return (x >> 31) ? (uint32_t)(0u - x) : x; }
+static inline uint64_t IR_ABS64(uint64_t x) { return (x >> 63) ? (uint64_t)(0ull - x) : x; }
+static inline uint32_t IR_CTPOP32(uint32_t x) { uint32_t n = 0; for (int i = 0; i < 32; i++) n += (x >> i) & 1; return n; }
+static inline uint64_t IR_CTPOP64(uint64_t x) { uint64_t n = 0; for (int i = 0; i < 64; i++) n += (x >> i) & 1; return n; }
 '''
 
 def reachable(m, roots, stubs):
